@@ -232,7 +232,9 @@ def run(case):
                             announced = int(m * tool.SPLIT_FACTOR * n_ref)
                             if abs(tb - ta) > 1e-9 * max(1.0, tb):
                                 msg = f"splits_shuffle changed the total duration of {a}: {tb!r} -> {ta!r}"
-                            elif len(af) != len(b) + announced and all(e - s > 1e-3 for s, e, _ in b):
+                            # (count judged only when there is room for every split: at each step the longest unit is at
+                            # least the average, which then stays far above the 1e-4 below which a unit cannot be split)
+                            elif len(af) != len(b) + announced and tb >= (len(b) + announced) * 1e-2:
                                 msg = (f"splits_shuffle announced {announced} splits (reference has {n_ref} units, m={m}) but {a} "
                                        f"went from {len(b)} to {len(af)} units")
                         if not af:
